@@ -424,6 +424,12 @@ def _tensors(tier, seed, signed):
                     else:
                         out.append(dict(shape=sh, ranks=rk, pat=pat, seed=seed, pairs=(d == 2), unsert=0.0))
                         out.append(dict(shape=sh, ranks=rk, pat=pat, seed=seed, pairs=False, unsert=1e-10))
+    for sh, rk in (([8, 9], [1, 3, 1]), ([2, 2, 2, 2, 2], [1, 2, 2, 2, 2, 1]), ([20, 3], [1, 2, 1]), ([3, 16], [1, 3, 1]), ([4, 4, 4], [1, 4, 4, 1])):
+        for pat in (['gen', 'nneg'] if signed else ['genpos', 'sq', 'zslice']):
+            if signed:
+                out.append(dict(shape=sh, ranks=rk, pat=pat, seed=seed))
+            else:
+                out.append(dict(shape=sh, ranks=rk, pat=pat, seed=seed, pairs=False, unsert=0.0))
     return out
 
 
